@@ -18,5 +18,10 @@ try:
     sup.build("vh-ffi", "c19", flavor="asan", quiet=False)
 except Exception as ex:
     print("asan pre-build failed:", str(ex)[:300])
+# the overflow-checks flavor of the same worker (C19 quick)
+try:
+    sup.build("vh-ffi", "c19", flavor="checked", quiet=False)
+except Exception as ex:
+    print("checked pre-build failed:", str(ex)[:300])
 PY
 echo "setup done"
